@@ -120,6 +120,10 @@ def check(case, ctx):
     cd = case["c"]
     via = case["via"] if ("cyclic" not in case["kind"] or case["via"] == "sparse") else "graph"
     c = G.build(cg, cd, via)
+    if cd["bbs"] and (len(cd["nodes"]) + len(cd["edges"])) % 4 == 0:
+        # the same graph wrapped without an instance registry (Circuit(graph=g)): the queries are about the graph
+        c = cg.Circuit(name=c.name, graph=c.graph.copy())
+        ctx.count("graph_with_pins_but_no_registry")
     queries(case, ctx, c, case["singles"], case["lists"])
     ed = case.get("edit")
     if not ed:
@@ -304,5 +308,5 @@ def queries(case, ctx, c, singles, lists, phase=""):
 
 
 def gates(counters, table, tier):
-    need = ["requery_after:rewire", "requery_after:relabel", "requery_after:connect", "class:dag", "class:dag+bb", "class:cyclic", "cmp:levelize", "cmp:kcuts", "reconv:nonempty", "reconv:empty", "cmp:depth_rejects_cyclic", "cmp:fanout_depthL", "cmp:fanin_depth1", "kcuts:nontrivial_sets", "star:branch_to_branch", "star:none", "star:through"]
+    need = ["requery_after:rewire", "requery_after:relabel", "requery_after:connect", "class:dag", "class:dag+bb", "class:cyclic", "cmp:levelize", "cmp:kcuts", "reconv:nonempty", "reconv:empty", "cmp:depth_rejects_cyclic", "cmp:fanout_depthL", "cmp:fanin_depth1", "kcuts:nontrivial_sets", "star:branch_to_branch", "star:none", "star:through", "graph_with_pins_but_no_registry"]
     return [f"class {k} never observed" for k in need if counters.get(k, 0) < 5]
